@@ -80,6 +80,21 @@ func init() {
 				c.R.Violation("c09.exact", hin, fmt.Sprintf("len=%d", len(strings.Join(pay, ""))), fmt.Sprintf("len=%d", len(want)), "concatenated AUTHENTICATE chunks differ from the mechanism's response")
 			}
 		}
+		// "once authentication has started, CAP END is sent only after the success numeric": judged step by step on what the
+		// real client wrote in answer to each received line (further CAP ACK/NEW/DEL lines may arrive in between)
+		if sc.SASL != "" {
+			started := false
+			for i := range steps {
+				for _, l := range cmp.PerStep[i] {
+					if strings.HasPrefix(l, "AUTHENTICATE ") {
+						started = true
+					}
+					if started && l == "CAP END" && (successAt < 0 || i < successAt) {
+						c.R.Violation("c09.cap_end_before_success", hin, fmt.Sprintf("step %d (%s): %v", i, steps[i], cmp.PerStep[i]), "", "CAP END was written after authentication had started and before the success numeric")
+					}
+				}
+			}
+		}
 		// fail closed
 		if sc.SASL != "" && in["authstarted"] == "1" {
 			if capEndAt >= 0 && successAt < 0 {
@@ -161,6 +176,9 @@ func runC09Protocol(c *Ctx) {
 	r := c.R
 	for _, pw := range []string{"S3cr3t!dropped", "hunter2 with spaces", "p\xe9ss"} {
 		c.run("sensitivedropped", map[string]string{"pass": pw})
+		for _, at := range []string{"pass", "sasl", "oper", "webirc"} {
+			c.run("sensitivefault", map[string]string{"pass": pw, "at": at})
+		}
 	}
 	for i := 0; i < 120*c.Scale; i++ {
 		in := map[string]string{"nick": "me", "check": "c09", "nosts": "1"}
@@ -188,7 +206,14 @@ func runC09Protocol(c *Ctx) {
 		if c.Rng.Chance(20) {
 			in["webirc"] = "w3birc-secret\x00gw\x00host\x001.2.3.4"
 		}
-		steps := []string{"R:srv CAP * LS :multi-prefix sasl=PLAIN,EXTERNAL", "R:srv CAP * ACK :multi-prefix sasl"}
+		steps := []string{"R:srv CAP * LS :multi-prefix away-notify sasl=PLAIN,EXTERNAL", "R:srv CAP * ACK :multi-prefix sasl"}
+		midAuth := ""
+		switch c.Rng.Intn(5) {
+		case 0: // the server acknowledges in two lines: the second ACK arrives after authentication has started
+			steps = []string{"R:srv CAP * LS :multi-prefix away-notify sasl=PLAIN,EXTERNAL", "R:srv CAP * ACK :sasl", "R:srv CAP * ACK :multi-prefix away-notify"}
+		case 1: // cap-notify traffic in the middle of the exchange
+			midAuth = "R:srv CAP * " + c.Rng.Pick([]string{"ACK :away-notify", "NEW :account-tag", "DEL :multi-prefix", "NEW :sasl=PLAIN", "ACK :multi-prefix"})
+		}
 		in["authstarted"] = "1"
 		inv := c.Rng.Pick([]string{"+", "+", "+", "+", "x", ""})
 		in["invite"] = inv
@@ -196,6 +221,9 @@ func runC09Protocol(c *Ctx) {
 			in["giveup"] = "1"
 		}
 		steps = append(steps, "RAUTHENTICATE "+inv)
+		if midAuth != "" {
+			steps = append(steps, midAuth)
+		}
 		switch c.Rng.Intn(6) {
 		case 0, 1:
 			steps = append(steps, "R:srv 900 me me!u@h acct :You are now logged in", "R:srv 903 me :SASL authentication successful")
@@ -263,7 +291,9 @@ func runC14Replies(c *Ctx) {
 
 func runC03Helpers(c *Ctx) {
 	r := c.R
-	nasty := []string{"x", "a b", "evil\r\nQUIT :pwned", "a\nJOIN #x", "a\rb", "\r\n", "nul\x00byte", "bad\xffutf8", ":colon", "", " ", "#chan\r\nPRIVMSG #other :hi", "tab\there"}
+	nasty := []string{"x", "a b", "evil\r\nQUIT :pwned", "a\nJOIN #x", "a\rb", "\r\n", "nul\x00byte", "bad\xffutf8", ":colon", "", " ", "#chan\r\nPRIVMSG #other :hi", "tab\there",
+		// longer than a line: whatever the client does with it, it is ONE CRLF-terminated line per event
+		strings.Repeat("x", 505), strings.Repeat("y", 520), strings.Repeat("long text ", 70), strings.Repeat("z", 3000) + "\r\nQUIT :late", strings.Repeat("é", 300)}
 	helpers := map[string][]string{
 		"Message": {"PRIVMSG"}, "Notice": {"NOTICE"}, "Action": {"PRIVMSG"}, "Topic": {"TOPIC"}, "Kick": {"KICK"}, "Part": {"PART"}, "PartMessage": {"PART"},
 		"Join": {"JOIN"}, "JoinKey": {"JOIN"}, "Nick": {"NICK"}, "Mode": {"MODE"}, "Ban": {"MODE"}, "Invite": {"INVITE"}, "Away": {"AWAY"}, "Who": {"WHO"}, "Whois": {"WHOIS"},
